@@ -32,12 +32,18 @@ def cases(draw):
     host = draw(st.sampled_from(["a.test", "b.test", "10.1.2.3", "xn--nxasmq6b.example"]))
     port = draw(st.sampled_from([None, None, 80, 443, 8080, 8443, 1, 65535]))
     creds = draw(st.sampled_from([None, None, ["PXU-user", "PXP-pass"], ["u:ser", "p@ss:PXP"], ["", ""]]))
+    def clean(text):
+        # the random parts must never contain a marker by accident (markers are matched as substrings)
+        for a, b in (("PX", "Px"), ("CL", "Cl"), ("px", "pX"), ("cl", "cL")):
+            text = text.replace(a, b)
+        return text
+
     caller_headers = draw(gen.header_list(max_size=4))
-    caller_headers = [[n, f"CLH{i}-{v}"] for i, (n, v) in enumerate(caller_headers)]
+    caller_headers = [[clean(n), f"CLH{i}-{clean(v)}"] for i, (n, v) in enumerate(caller_headers)]
     proxy_headers = []
     if kind in ("http", "https"):
         proxy_headers = draw(gen.header_list(max_size=3))
-        proxy_headers = [[n, f"PXH{i}-{v}"] for i, (n, v) in enumerate(proxy_headers)]
+        proxy_headers = [[clean(n), f"PXH{i}-{clean(v)}"] for i, (n, v) in enumerate(proxy_headers)]
         if caller_headers and draw(st.booleans()):
             n = caller_headers[draw(st.integers(0, len(caller_headers) - 1))][0]
             proxy_headers.insert(draw(st.integers(0, len(proxy_headers))), [draw(st.sampled_from([n, n.upper(), n.lower(), n.swapcase()])), "PXHc-collides"])
